@@ -120,6 +120,14 @@ def _include_case(item):
                     f.write(b'canary_root_relative=1\n')
             except OSError:
                 pass
+    # in every second case the file at the cart-relative resolution is moved away for the load, so that a loader with a
+    # second place to look (the include root, the working directory) gets that far
+    away = None
+    if not inc.startswith('/') and (len(inc) + len(arg)) % 2:
+        rel = os.path.normpath(os.path.join(os.path.dirname(cart), inc))
+        if os.path.isfile(rel) and rel.startswith(S + os.sep):
+            away = rel
+            os.rename(rel, rel + '.away')
     old_home = os.environ.get('HOME')
     os.environ['HOME'] = os.path.join(S, 'home')
     _A.update(on=True, root=S, opens=[])
@@ -145,6 +153,8 @@ def _include_case(item):
     finally:
         os.chdir(cwd)
         _A['on'] = False
+        if away:
+            os.rename(away + '.away', away)
         if old_home is None:
             os.environ.pop('HOME', None)
         else:
